@@ -123,7 +123,7 @@ def build(fmt, rng, natom, present, mag):
             kw["atcharges"] = {"mol2charges": np.array([round((-1) ** i * (0.1 + 0.0007 * i), 4) for i in range(natom)])}
         ff, ex = {}, {}
         if "atffparams.attypes" in P:
-            ff["attypes"] = np.array([f"A{i % 999}" for i in range(natom)])
+            ff["attypes"] = np.array([f"A{i % 999}" if (fmt == "pdb" or i % 4) else ["CG2R61", "HGR61x", "N.pl3", "C.cat"][i % 4] for i in range(natom)])
         if "atffparams.restypes" in P:
             ff["restypes"] = np.array([["ALA", "GLY", "HOH"][i % 3] for i in range(natom)])
         if "atffparams.resnums" in P:
